@@ -456,6 +456,13 @@ def run_random(ctx, case):
     xa, xb = _arrs(a), _arrs(b)
     ctx.require(len(xa) == len(xb) and all(np.array_equal(p, q) and p.dtype == q.dtype for p, q in zip(xa, xb)), f'{name}: same seed gives bit-identical output',
                 f'kwargs={kw} seed={seed} noise={noise}')
+    # the same seed given as a numpy integer scalar (an element of np.arange, the result of rng.integers ...) is the same seed
+    if name not in ('get_random_rng', 'get_numpy_rng'):
+        for np_seed in ([np.int64(seed)] if seed < 2 ** 63 else []) + ([np.uint32(seed)] if seed < 2 ** 32 else []):
+            e = call(kw, np_seed)
+            xe = _arrs(e)
+            ctx.require(len(xe) == len(xa) and all(np.array_equal(p, q) and p.dtype == q.dtype for p, q in zip(xa, xe)), f'{name}: a numpy integer seed acts like the equal Python int',
+                        f'kwargs={kw} seed={seed} as {type(np_seed).__name__}')
     # an unseeded call is also a member of the advertised set
     c = call(kw, None)
     validate(ctx, kw, c)
@@ -497,13 +504,15 @@ def run_api(ctx, case):
     ctx.note(klass=api, desc=[api, [o for o, _ in noise]], nontrivial=len(noise) > 0, labels=[api, 'noise' if noise else 'no-noise'])
     r = ref.rng(case['prng'])
 
+    psi_shared = ref.rand_state(ref.rng(case['prng']), 2 ** n)  # ONE array object handed to both calls ("repeating the call")
+
     def once():
         if api == 'measure':
-            psi = ref.rand_state(ref.rng(case['prng']), 2 ** n)
+            psi = psi_shared
             b, p, q = nq.sim.state.measure_quantum_vector(psi, tuple(range(0, n, 2)), seed=seed)
             return [np.array(b), p, q]
         if api == 'circuit_measure':
-            psi = ref.rand_state(ref.rng(case['prng']), 2 ** n)
+            psi = psi_shared
             c = nq.sim.Circuit()
             c.H(0)
             g = c.measure(tuple(range(n)), seed=seed)
